@@ -95,6 +95,24 @@ fn eq_differ(ash: Shape, bsh: Shape) {
 harness2!(eq_differ__s8_4a__u, eq_differ, S8_4A, E4_U);
 harness2!(eq_differ__u__s8_8g0, eq_differ, E4_U, S8_8G0);
 
+/// a strict sub-map never equals its super-map, whichever side it is on
+fn eq_submap(ash: Shape, bsh: Shape) {
+    let a = build_kv(ash, 1);
+    assume_distinct(&a);
+    let b = build_kv(bsh, 2);
+    assume_distinct(&b);
+    assert!(a.len() < b.len(), "[harness] the first shape must hold fewer elements");
+    assume_subset(&a, &b);
+    assert!(a != b, "[C14] a map compares equal to a map that holds one more element");
+    assert!(b != a, "[C14] a map compares equal to a strict sub-map of itself");
+    kani::cover!(true, "reach: end of harness");
+    core::mem::forget(a);
+    core::mem::forget(b);
+}
+harness2!(eq_submap__u8_3t__s8_4a, eq_submap, U8_3T, S8_4A);
+harness2!(eq_submap__u0__s8_4one, eq_submap, U0, S8_4ONE);
+harness2!(eq_submap__s8_4one__u, eq_submap, S8_4ONE, E4_U);
+
 /// transitivity on three maps with equal contents
 #[kani::proof]
 #[kani::unwind(34)]
